@@ -505,7 +505,6 @@ def check_fasta_file(ctx, case):
     text = _render_file(case)
     recs = case['records']
     want = [''.join(r['lines']) for r in recs]
-    exact = [all(l == l.rstrip() for l in r['lines']) for r in recs]
     tmp = _state.get('tmp') or os.path.join(HERE, 'out', 'C18', 'tmp', 'replay-%d' % os.getpid())
     os.makedirs(tmp, exist_ok=True)
     path = os.path.join(tmp, case['stem'] + ext)
@@ -531,10 +530,12 @@ def check_fasta_file(ctx, case):
                 ctx.violation('%s yields %d records for a text with %d ">" headers'
                               % (route, len(got), len(recs)), field='record-count', route=route)
                 return False
-            for n, ((_name, seq), w, ex) in enumerate(zip(got, want, exact)):
+            for n, ((_name, seq), w) in enumerate(zip(got, want)):
                 ctx.evaluated(what='record-sequence')
-                same = (seq == w) if ex else (seq.replace(' ', '') == w.replace(' ', ''))
-                if not same:
+                # spaces are ignored in code strings, so a reader may keep or strip them
+                if seq == w:
+                    ctx.count('observe.record_text_identical')
+                if seq.replace(' ', '') != w.replace(' ', ''):
                     ctx.violation('%s record %d is %r, the lines after its header concatenate to %r'
                                   % (route, n, seq[:200], w[:200]), field='record-sequence', route=route)
                     return False
